@@ -16,13 +16,93 @@ pub struct Origin {
     pub key: String,
 }
 
+/// Fundamental cycle basis of the multigraph; returns the E x L signature matrix.
+/// Edge e is oriented edges[e].0 -> edges[e].1.
+pub fn cycle_basis(edges: &[(usize, usize)]) -> Vec<Vec<isize>> {
+    let ne = edges.len();
+    let nv = edges.iter().map(|e| e.0.max(e.1)).max().map(|m| m + 1).unwrap_or(0);
+    let mut parent: Vec<Option<(usize, usize)>> = vec![None; nv]; // (parent vertex, edge id)
+    let mut seen = vec![false; nv];
+    let mut in_tree = vec![false; ne];
+    let mut depth = vec![0usize; nv];
+    for root in 0..nv {
+        if seen[root] || !edges.iter().any(|e| e.0 == root || e.1 == root) {
+            continue;
+        }
+        seen[root] = true;
+        let mut stack = vec![root];
+        while let Some(v) = stack.pop() {
+            for (i, e) in edges.iter().enumerate() {
+                if in_tree[i] || e.0 == e.1 {
+                    continue;
+                }
+                let w = if e.0 == v { e.1 } else if e.1 == v { e.0 } else { continue };
+                if !seen[w] {
+                    seen[w] = true;
+                    in_tree[i] = true;
+                    parent[w] = Some((v, i));
+                    depth[w] = depth[v] + 1;
+                    stack.push(w);
+                }
+            }
+        }
+    }
+    let chords: Vec<usize> = (0..ne).filter(|&i| !in_tree[i]).collect();
+    let mut sig = vec![vec![0isize; chords.len()]; ne];
+    for (l, &c) in chords.iter().enumerate() {
+        sig[c][l] = 1;
+        // close the cycle: walk from head (edges[c].1) back to tail (edges[c].0) through the tree
+        let (mut a, mut b) = (edges[c].1, edges[c].0);
+        // flow goes a -> ... -> b ; climb both to the common ancestor
+        while a != b {
+            if depth[a] >= depth[b] {
+                let (p, e) = parent[a].unwrap();
+                // traversing a -> p along the direction of flow
+                sig[e][l] += if edges[e].0 == a && edges[e].1 == p { 1 } else { -1 };
+                a = p;
+            } else {
+                let (p, e) = parent[b].unwrap();
+                // flow arrives at b from p: traversing p -> b
+                sig[e][l] += if edges[e].0 == p && edges[e].1 == b { 1 } else { -1 };
+                b = p;
+            }
+        }
+    }
+    sig
+}
+
+
 fn ai(v: &Value) -> i64 { v.as_i64().expect("int") }
 
 pub fn origins_from_lines(lines: &[Value], max: usize) -> Vec<Origin> {
     let mut out = vec![];
-    for l in lines {
+    // spread the selection over the whole file (different topologies, loop numbers, D): every k-th line first
+    let k = (2 * lines.len() / max.max(1)).max(1);
+    let spread = lines.iter().step_by(k).chain(lines.iter());
+    for l in spread {
         let g = &l["g"];
         let wd = ai(&g["wd"]) as f64;
+        if l.get("routings").is_none() {
+            // a Gen_Table line (possibly disconnected graph): accepted, at least one loop, positive dod
+            if l["div"].as_bool().unwrap_or(true) || ai(&l["L"]) < 1 || ai(&l["dod"]) <= 0 { continue; }
+            let edges_raw: Vec<(usize, usize)> = g["edges"].as_array().unwrap().iter().map(|e| (ai(&e[0]) as usize, ai(&e[1]) as usize)).collect();
+            let d = ai(&g["D"]) as usize;
+            let mass: Vec<bool> = g["mass"].as_array().unwrap().iter().map(|b| b.as_bool().unwrap()).collect();
+            let o = Origin {
+                edges: edges_raw.iter().map(|e| ((e.0 * 37 % 251) as u8, (e.1 * 37 % 251) as u8)).collect(),
+                m: mass.iter().map(|&b| if b { 1.0 } else { 0.0 }).collect(),
+                mass,
+                weights: g["w"].as_array().unwrap().iter().map(|w| ai(w) as f64 / wd).collect(),
+                ext: g["ext"].as_array().unwrap().iter().map(|v| (ai(v) * 37 % 251) as u8).collect(),
+                d,
+                sig: cycle_basis(&edges_raw),
+                p: (0..edges_raw.len()).map(|e| (0..d).map(|c| ((e + 2 * c) % 3) as f64 - 1.0).collect()).collect(),
+                key: format!("{}#t", g),
+            };
+            if !out.iter().any(|x: &Origin| x.key == o.key) { out.push(o); }
+            if out.len() >= max { return out; }
+            continue;
+        }
         for (ri, r) in l["routings"].as_array().unwrap().iter().enumerate().take(2) {
             let o = Origin {
                 edges: g["edges"].as_array().unwrap().iter().map(|e| ((ai(&e[0]) * 37 % 251) as u8, (ai(&e[1]) * 37 % 251) as u8)).collect(),
